@@ -413,6 +413,8 @@ func genRefl(r *RNG) (interface{}, SX) {
 	if v == nil {
 		return nil, L(I(0))
 	}
+	// boxed, so that a dump of a MapObjectEncoder can tell a reflected value from a typed one
+	v = reflBox{v}
 	var buf bytes.Buffer
 	e := json.NewEncoder(&buf)
 	e.SetEscapeHTML(false)
@@ -420,6 +422,18 @@ func genRefl(r *RNG) (interface{}, SX) {
 		return v, L(I(2), Str(err.Error()))
 	}
 	return v, L(I(1), B(bytes.TrimSuffix(buf.Bytes(), []byte("\n"))))
+}
+
+type reflBox struct{ v interface{} }
+
+func (b reflBox) MarshalJSON() ([]byte, error) {
+	var buf bytes.Buffer
+	e := json.NewEncoder(&buf)
+	e.SetEscapeHTML(false)
+	if err := e.Encode(b.v); err != nil {
+		return nil, err
+	}
+	return bytes.TrimSuffix(buf.Bytes(), []byte("\n")), nil
 }
 
 // ---------- stringers and errors ----------
